@@ -127,7 +127,27 @@ def run(ctx):
     ao = ctx.repo.method(RX, "_apply_operator")
     d = [n for n in ast.walk(ao.node) if isinstance(n, ast.Dict)]
     ok = any(any(isinstance(k, ast.Constant) and k.value == "reverse" and isinstance(v, ast.Name) and v.id == "reverse" for k, v in zip(x.keys, x.values)) for x in d)
-    (ctx.ok if ok else ctx.fail)("R09.d", ao, ao.node, "_apply_operator records the reverse flag in the operation" if ok else "_apply_operator drops the reverse flag")
+    rebound = [st for st in ast.walk(ao.node) if isinstance(st, (ast.Assign, ast.AugAssign)) and any(
+        isinstance(t, ast.Name) and t.id == "reverse" for t in (st.targets if isinstance(st, ast.Assign) else [st.target]))]
+    if rebound:
+        ok = False
+    (ctx.ok if ok else ctx.fail)("R09.d", ao, rebound[0] if rebound else ao.node, "_apply_operator records the caller's reverse flag in the operation, unchanged" if ok else (
+        "_apply_operator overrides the reverse flag (`%s`): some reflected forms are evaluated as `value <op> other`" % norm(rebound[0]) if rebound else "_apply_operator drops the reverse flag"))
+    # raw cache slot: who may read it
+    RAW_READERS = {"_current", "_resolve", "_resolve_async", "__init__", "__getattribute__", "__new__"}
+    nread = 0
+    for mname, fl in cls.methods.items():
+        for g in fl:
+            for a in ast.walk(g.node):
+                if isinstance(a, ast.Attribute) and a.attr == "_current_" and isinstance(a.ctx, ast.Load) and norm(a.value) == "self":
+                    nread += 1
+                    if mname in RAW_READERS:
+                        ctx.ok("R09.f", g, a, "raw cache slot read by %s" % mname)
+                    else:
+                        ctx.fail("R09.f", g, a, "%s reads the raw cache slot self._current_ instead of the self._current property (which re-resolves a dirty or errored node): "
+                                                "a stale value is handed on as if it were fresh" % mname, key="%s::raw-cache-read" % g.qualname,
+                                 input="b = a + 1; b.rx.value; a.rx.value = 5; c = b * 2; c.rx.value -> 4 instead of 12")
+    ctx.require(nread >= 2, "reads of rx._current_ not found")
     ev = ctx.repo.method(RX, "_eval_operation")
     ok = False
     for st in ast.walk(ev.node):
